@@ -7,7 +7,7 @@ prop("C10", pkg="c10",
           "their snapshot forever and point into no lent buffer; zero-copy results equal their snapshot while their own input is intact and point only into their own "
           "input or untracked memory. Non-trivial = a decode followed by a scribble of its input, or an encode followed by churn; distinct = FNV-64 of the history.",
      quick=dict(shards=16, scale=1, timeout=900),
-     thorough=dict(shards=16, scale=20, timeout=3000),
+     thorough=dict(shards=16, rounds=4, scale=3, timeout=3000),
      technique="rapid stateful (model-based) property testing with a shadow model of lent and handed-out buffers and address-range aliasing checks",
      level_text="Exploration of call histories: every step re-validates all snapshots and all data-pointer ranges, so an aliasing bug is observed as soon as a later "
                 "step touches the shared memory; histories average ~30 steps.",
